@@ -502,6 +502,8 @@ func errClass(e string) string {
 		{"declared and not used", "declared-and-not-used"},
 		{"undefined:", "undefined-name"},
 		{"undefined (type", "undefined-field-or-method"},
+		{"not enough return values", "not-enough-return-values"},
+		{"too many return values", "too-many-return-values"},
 		{"too many arguments", "too-many-arguments"},
 		{"not enough arguments", "not-enough-arguments"},
 		{"cannot call pointer method", "pointer-method-on-value"},
